@@ -692,6 +692,7 @@ func c04() {
 	c04Embedded()
 	c04LongLists()
 	c04LongStringsAndEnums()
+	c04Void()
 }
 
 // tDecodeAlt: every specification-conformant encoding of the same content is accepted with the same result: the
@@ -826,7 +827,22 @@ func c08() {
 		}
 	}
 	c08StrictNested()
+	// negative element counts (binary protocol) are rejected on every path: a collection the reader skips (an
+	// undeclared field, or a declared collection of another item type) as well as one it decodes
+	for _, c := range [][2]string{
+		{"(struct (f 1 0 i32))", "09000503ffffffff000000"},        // unknown list field, size -1
+		{"(struct (f 1 0 i32))", "0a00050380000000000000"},        // unknown set field, size MinInt32
+		{"(struct (f 1 0 i32))", "0b00050303ffffffff000000"},      // unknown map field, size -1
+		{"(struct (f 1 0 (list str)))", "09000103ffffffff000000"}, // declared list<str>, wire list<i8> of size -1
+		{"(struct (f 1 0 (list i8)))", "09000103ffffffff000000"},  // declared and wire list<i8>, size -1
+		{"(struct (f 1 0 (map i8 i8)))", "0b00010303fffffffe000000"},
+	} {
+		for _, p := range []string{"bs", "bn"} {
+			tDecodeExpect(ttyFromSx(parseSx(c[0])), unhex(c[1]), p, "err:other")
+		}
+	}
 	c08LongTruncated()
+	c08DeepUnknown()
 	_ = fmt.Sprint
 }
 
